@@ -465,6 +465,11 @@ type c19Chan struct {
 	PreSend      bool     `json:"pre_send"`      // one Send while connecting (must be refused)
 	CloseAfter   bool     `json:"close_after"`   // Close right after the last Send, then one more Send (must be refused)
 	Msgs         []c19Msg `json:"msgs"`
+	// the application on the two ends (in-band channels; ReplaceAt also negotiated ones)
+	SendOnOpen bool `json:"send_on_open,omitempty"` // every message is sent as soon as the SENDER's channel is open (what an OnOpen callback does), not waiting for the receiver's side to open
+	SlowMs     int  `json:"slow_ms,omitempty"`      // the receiver's OnDataChannel callback takes this long before it returns
+	RegEarly   bool `json:"reg_early,omitempty"`    // OnMessage/OnOpen registered at the start of that callback; default: as its last statements
+	ReplaceAt  int  `json:"replace_at,omitempty"`   // > 0: after that many messages the OnMessage handler replaces itself with a second handler
 }
 
 func (c c19Chan) label() string { return c.Label + strings.Repeat("L", c.LabelPad) }
@@ -480,6 +485,7 @@ type c19Conn struct {
 type c19Got struct {
 	data []byte
 	text bool
+	h    int // which OnMessage handler was invoked: 0 the first, 1 its replacement
 }
 
 type c19Recv struct {
@@ -488,9 +494,11 @@ type c19Recv struct {
 	tick chan struct{}
 }
 
-func (r *c19Recv) add(m webrtc.DataChannelMessage) {
+func (r *c19Recv) add(m webrtc.DataChannelMessage) { r.addBy(0, m) }
+
+func (r *c19Recv) addBy(h int, m webrtc.DataChannelMessage) {
 	r.mu.Lock()
-	r.log = append(r.log, c19Got{append([]byte(nil), m.Data...), m.IsString})
+	r.log = append(r.log, c19Got{append([]byte(nil), m.Data...), m.IsString, h})
 	r.mu.Unlock()
 	select {
 	case r.tick <- struct{}{}:
@@ -501,6 +509,24 @@ func (r *c19Recv) snapshot() []c19Got {
 	r.mu.Lock()
 	defer r.mu.Unlock()
 	return append([]c19Got(nil), r.log...)
+}
+
+// the receiving application's OnMessage registration: one handler, or one that
+// replaces itself mid-stream (from inside the handler, i.e. between two
+// iterations of the read loop)
+func c19Install(d *webrtc.DataChannel, r *c19ChanRun) {
+	if r.spec.ReplaceAt <= 0 {
+		d.OnMessage(r.recv.add)
+		return
+	}
+	n := 0 // touched by the channel's read loop only
+	d.OnMessage(func(m webrtc.DataChannelMessage) {
+		r.recv.addBy(0, m)
+		n++
+		if n == r.spec.ReplaceAt {
+			d.OnMessage(func(m webrtc.DataChannelMessage) { r.recv.addBy(1, m) })
+		}
+	})
 }
 
 // waitCount waits until n messages have been seen (explicit signal per
@@ -603,8 +629,19 @@ func c19ConnRun(in c19Conn) (V, Verdict) {
 		}
 		r.remote = d
 		annMu.Unlock()
-		d.OnMessage(r.recv.add)
-		d.OnOpen(func() { close(r.ropened) })
+		// the application's OnDataChannel callback: possibly slow, registering
+		// its handlers first thing or as its last statements
+		if r.spec.RegEarly {
+			c19Install(d, r)
+			d.OnOpen(func() { close(r.ropened) })
+		}
+		if r.spec.SlowMs > 0 {
+			time.Sleep(time.Duration(r.spec.SlowMs) * time.Millisecond)
+		}
+		if !r.spec.RegEarly {
+			c19Install(d, r)
+			d.OnOpen(func() { close(r.ropened) })
+		}
 	}
 	off.OnDataChannel(announce)
 	ans.OnDataChannel(announce)
@@ -647,7 +684,7 @@ func c19ConnRun(in c19Conn) (V, Verdict) {
 			annMu.Lock()
 			r.remote = rd
 			annMu.Unlock()
-			rd.OnMessage(r.recv.add)
+			c19Install(rd, r)
 			rd.OnOpen(func() { close(r.ropened) })
 		}
 		if c.PreSend && !c.Late {
@@ -711,48 +748,61 @@ func c19ConnRun(in c19Conn) (V, Verdict) {
 			if c.Negotiated || len(c.label())+len(c.Protocol) <= c19DCEPOpenBudget {
 				refused = nil // an Accept failure on that peer is about another channel
 			}
-		waitRemote:
-			for {
-				select {
-				case <-r.ropened:
-					break waitRemote
-				case <-refused:
-					v := c19OpenFailure(r, "the receiver's Accept failed on this channel's DATA_CHANNEL_OPEN")
-					r.fail = &v
-					return
-				case <-died:
-					// no further announcement will come; a channel that has been
-					// announced already still opens (its OnOpen runs in its own goroutine)
-					annMu.Lock()
-					announced := r.remote != nil
-					annMu.Unlock()
-					if !announced {
-						v := c19OpenFailure(r, "receiver's acceptDataChannels ended before announcing the channel")
+			waitRemote := func() bool {
+				for {
+					select {
+					case <-r.ropened:
+						return true
+					case <-refused:
+						v := c19OpenFailure(r, "the receiver's Accept failed on this channel's DATA_CHANNEL_OPEN")
 						r.fail = &v
-						return
+						return false
+					case <-died:
+						// no further announcement will come; a channel that has been
+						// announced already still opens (its OnOpen runs in its own goroutine)
+						annMu.Lock()
+						announced := r.remote != nil
+						annMu.Unlock()
+						if !announced {
+							v := c19OpenFailure(r, "receiver's acceptDataChannels ended before announcing the channel")
+							r.fail = &v
+							return false
+						}
+						died = nil
+					case <-ctx.Done():
+						v := c19OpenFailure(r, "receiver-side channel never announced/opened")
+						r.fail = &v
+						return false
 					}
-					died = nil
-				case <-ctx.Done():
-					v := c19OpenFailure(r, "receiver-side channel never announced/opened")
-					r.fail = &v
-					return
 				}
 			}
-			for _, m := range c.Msgs {
-				b := m.bytes()
-				var err error
-				if m.Text {
-					err = r.local.SendText(string(b))
-				} else {
-					err = r.local.Send(b)
+			sendAll := func() bool {
+				for _, m := range c.Msgs {
+					b := m.bytes()
+					var err error
+					if m.Text {
+						err = r.local.SendText(string(b))
+					} else {
+						err = r.local.Send(b)
+					}
+					r.results = append(r.results, err == nil)
+					if err != nil {
+						v := Fail("send-while-open-refused", fmt.Sprintf("Send of %d bytes on an open channel: %v", m.Size, err))
+						r.fail = &v
+						return false
+					}
+					r.accepted = append(r.accepted, c19Got{b, m.Text, 0})
 				}
-				r.results = append(r.results, err == nil)
-				if err != nil {
-					v := Fail("send-while-open-refused", fmt.Sprintf("Send of %d bytes on an open channel: %v", m.Size, err))
-					r.fail = &v
+				return true
+			}
+			if c.SendOnOpen {
+				// the sender's channel is open (for an in-band channel: the DCEP ACK is
+				// back, which the receiver sends before its OnDataChannel callback runs)
+				if !sendAll() || !waitRemote() {
 					return
 				}
-				r.accepted = append(r.accepted, c19Got{b, m.Text})
+			} else if !waitRemote() || !sendAll() {
+				return
 			}
 			if c.CloseAfter {
 				if err := r.local.Close(); err != nil {
@@ -761,6 +811,14 @@ func c19ConnRun(in c19Conn) (V, Verdict) {
 					return
 				}
 				r.results = append(r.results, r.local.SendText(string(c19PostMsg.bytes())) == nil)
+			}
+			if c.SendOnOpen && c.reliableOrdered() {
+				// everything was written before the receiver's side opened: it is
+				// queued there; a bounded wait keeps a loss from costing the whole deadline
+				gctx, gcancel := context.WithTimeout(ctx, 15*time.Second)
+				r.recv.waitCount(gctx, len(r.accepted), 0)
+				gcancel()
+				return
 			}
 			quiet := time.Duration(0)
 			if c.MR >= 0 || c.MPLT >= 0 {
@@ -789,15 +847,16 @@ func c19ConnRun(in c19Conn) (V, Verdict) {
 		for k, b := range r.results {
 			res[k] = VB(b)
 		}
-		var del V = VL{}
+		var del, who V = VL{}, VL{}
 		if c.reliableOrdered() {
-			l := make(VL, len(got))
+			l, w := make(VL, len(got)), make(VL, len(got))
 			for k, g := range got {
 				l[k] = c19Proj(g.data, g.text)
+				w[k] = VZ(int64(g.h))
 			}
-			del = l
+			del, who = l, w
 		}
-		obs[i] = VL{getters, res, del}
+		obs[i] = VL{getters, res, del, who}
 		if verdict.OK {
 			if v := c19ChanOracle(i, r, got); !v.OK {
 				verdict = v
@@ -895,6 +954,20 @@ func c19ChanOracle(i int, r *c19ChanRun, got []c19Got) Verdict {
 			return Fail("remote-id-differs", fmt.Sprintf("channel %d", i))
 		}
 	}
+	// a replaced OnMessage handler: the first ReplaceAt invocations are the
+	// first handler's, every later one the second's
+	for k, g := range got {
+		wantH := 0
+		if c.ReplaceAt > 0 && k >= c.ReplaceAt {
+			wantH = 1
+		}
+		if g.h != wantH {
+			if wantH == 1 {
+				return Fail("replaced-onmessage-handler-still-invoked", fmt.Sprintf("channel %d: delivery %d went to the handler replaced after %d messages", i, k, c.ReplaceAt))
+			}
+			return Fail("message-delivered-to-wrong-handler", fmt.Sprintf("channel %d: delivery %d went to handler %d", i, k, g.h))
+		}
+	}
 	exp := r.accepted
 	same := func(a, b c19Got) bool { return a.text == b.text && string(a.data) == string(b.data) }
 	if c.reliableOrdered() {
@@ -924,6 +997,13 @@ func c19ChanOracle(i int, r *c19ChanRun, got []c19Got) Verdict {
 			sig := "message-not-delivered"
 			if c.CloseAfter {
 				sig = "close-after-send-drops-messages"
+			}
+			if c.SendOnOpen && !c.Negotiated {
+				// sent on the open channel while the receiving side was still being set up
+				sig = "messages-sent-before-receiver-side-open-dropped"
+				if c.SlowMs > 0 {
+					sig = "messages-sent-during-ondatachannel-callback-dropped"
+				}
 			}
 			return Fail(sig, fmt.Sprintf("channel %d: %d sent while open, %d delivered before the deadline (first missing: %d bytes)",
 				i, len(exp), len(got), len(exp[len(got)].data)))
@@ -972,8 +1052,15 @@ func c19ConnCoq(in c19Conn) string {
 		if c.CloseAfter {
 			script = append(script, "SClose", c19ProjCoq(c19PostMsg.bytes(), true))
 		}
-		chans[i] = fmt.Sprintf("(Cin %s %s %s %s %s %s %s)", CoqBool(c.Ordered), CoqZ(int64(c.MR)), CoqZ(int64(c.MPLT)),
-			CoqString(c19Text(c.label())), CoqString(c19Text(c.Protocol)), CoqBool(c.Negotiated), CoqList(script))
+		sched := 0 // when the messages reach the receiver relative to its OnDataChannel callback
+		if c.SendOnOpen && !c.Negotiated {
+			sched = 2
+			if c.RegEarly {
+				sched = 1
+			}
+		}
+		chans[i] = fmt.Sprintf("(Cin %s %s %s %s %s %s %s %d %d)", CoqBool(c.Ordered), CoqZ(int64(c.MR)), CoqZ(int64(c.MPLT)),
+			CoqString(c19Text(c.label())), CoqString(c19Text(c.Protocol)), CoqBool(c.Negotiated), CoqList(script), sched, max(c.ReplaceAt, 0))
 	}
 	return CoqList(chans)
 }
@@ -983,6 +1070,7 @@ var c19Sizes = []int{0, 1, 2, 3, 100, 1023, 1150, 1200, 1201, 1300, 4096, 16383,
 func c19GenConn(r *Rand, i int, shim bool) c19Conn {
 	n := r.Range(1, 3)
 	var out c19Conn
+	slow := false
 	budget := 600 * 1024
 	for k := 0; k < n; k++ {
 		c := c19Chan{Ordered: true, MR: -1, MPLT: -1, Label: fmt.Sprintf("c%d-%s", k, Pick(r, []string{"", "chat", "gr\xc3\xbc\xc3\x9f", "a b"})),
@@ -1027,6 +1115,24 @@ func c19GenConn(r *Rand, i int, shim bool) c19Conn {
 			budget -= sz
 			c.Msgs = append(c.Msgs, c19Msg{Size: sz, Text: r.Bool(), Seed: r.U64() >> 12})
 		}
+		// the applications: send as soon as the sender's side is open; replace the
+		// handler mid-stream; and - rarely, it costs seconds - a slow OnDataChannel
+		// callback on the receiving side (at most one per case: the accept loop
+		// handles one announcement at a time)
+		if !c.Negotiated && c.reliableOrdered() && r.Chance(1, 3) {
+			c.SendOnOpen = true
+			c.CloseAfter = false
+			c.RegEarly = r.Chance(1, 3)
+			if !slow && r.Chance(1, 3) {
+				slow = true
+				c.SlowMs = r.Range(2500, 3000)
+			} else if r.Chance(1, 2) {
+				c.SlowMs = r.Range(1, 300)
+			}
+		}
+		if c.reliableOrdered() && len(c.Msgs) > 1 && r.Chance(1, 4) {
+			c.ReplaceAt = r.Range(1, len(c.Msgs))
+		}
 		out.Chans = append(out.Chans, c)
 	}
 	if shim {
@@ -1037,6 +1143,28 @@ func c19GenConn(r *Rand, i int, shim bool) c19Conn {
 
 func c19ConnShrink(in c19Conn) []c19Conn {
 	var out []c19Conn
+	for i := range in.Chans {
+		if in.Chans[i].SlowMs >= 1000 {
+			// every run costs the callback's seconds (and a failing one its grace
+			// period): only drop the other channels and halve the messages
+			if len(in.Chans) > 1 {
+				ch := in.Chans[i]
+				ch.Late, ch.FromAnswerer = false, false
+				out = append(out, c19Conn{Shim: in.Shim, Chans: []c19Chan{ch}})
+			}
+			if n := len(in.Chans[i].Msgs); n > 1 {
+				c := c19Conn{Shim: in.Shim, Chans: append([]c19Chan{}, in.Chans...)}
+				ch := c.Chans[i]
+				ch.Msgs = append([]c19Msg{}, ch.Msgs[:n/2]...)
+				if ch.ReplaceAt > len(ch.Msgs) {
+					ch.ReplaceAt = 0
+				}
+				c.Chans[i] = ch
+				out = append(out, c)
+			}
+			return out
+		}
+	}
 	for i := range in.Chans {
 		if len(in.Chans) > 1 && !(i == 0 && in.Chans[1].Late) {
 			c := c19Conn{Shim: in.Shim}
@@ -1114,6 +1242,23 @@ func c19ConnCorpus() []c19Conn {
 			{Ordered: true, MR: -1, MPLT: -1, Label: "c1-ans", Protocol: "x", FromAnswerer: true, CloseAfter: true,
 				Msgs: []c19Msg{m(3000, true, 3), m(0, true, 4), m(40000, false, 5)}},
 			{Ordered: false, MR: 0, MPLT: -1, Label: "c2-late", Late: true, Msgs: []c19Msg{m(5, false, 6)}}}},
+		// a slow OnDataChannel callback (registers its handlers as its last
+		// statements, after 3 s) while the remote peer sends from its OnOpen
+		{Chans: []c19Chan{{Ordered: true, MR: -1, MPLT: -1, Label: "c0-slow-late", Protocol: "p", SendOnOpen: true, SlowMs: 3000,
+			Msgs: []c19Msg{m(10, true, 1), m(0, false, 2), m(1200, true, 3), m(20000, false, 4), m(3, true, 5), m(3, true, 6),
+				m(70000, false, 7), m(1, true, 8), m(5, false, 9), m(900, true, 10)}}}},
+		// the same with the handlers registered first thing, replaced after 4
+		// messages, and a second channel announced behind the slow one
+		{Chans: []c19Chan{
+			{Ordered: true, MR: -1, MPLT: -1, Label: "c0-slow-early", SendOnOpen: true, SlowMs: 2600, RegEarly: true, ReplaceAt: 4,
+				Msgs: []c19Msg{m(10, true, 1), m(11, false, 2), m(12, true, 3), m(13, false, 4), m(14, true, 5), m(15, true, 6)}},
+			{Ordered: true, MR: -1, MPLT: -1, Label: "c1-behind", Protocol: "q", SendOnOpen: true, ReplaceAt: 1,
+				Msgs: []c19Msg{m(100, false, 7), m(0, true, 8), m(4000, false, 9)}}}},
+		// quick callback, messages sent on the sender's open from the answerer, handler replaced at once
+		{Chans: []c19Chan{
+			{Ordered: true, MR: -1, MPLT: -1, Label: "c0-first", Msgs: []c19Msg{m(1, true, 1)}},
+			{Ordered: true, MR: -1, MPLT: -1, Label: "c1-ans-onopen", FromAnswerer: true, SendOnOpen: true, SlowMs: 50, ReplaceAt: 1,
+				Msgs: []c19Msg{m(16384, true, 2), m(16385, false, 3), m(2, true, 4)}}}},
 		// witness of the known finding: DATA_CHANNEL_OPEN above 8192 bytes
 		{Chans: []c19Chan{
 			{Ordered: true, MR: -1, MPLT: -1, Label: "c0-ok", Msgs: []c19Msg{m(4, false, 1)}},
